@@ -31,7 +31,16 @@ class Cond(AbstractValue):
         return 'Cond(%s%r)' % ('not ' if self.negated else '', self.key)
 
     def abs_truth(self, interp):
-        v = interp.oracle.decide(('cond', self.key), self.key)
+        k = ('cond', self.key)
+        if k not in interp.oracle.memo:
+            forced = implied_value(interp, self.key)
+            if forced is not None:
+                interp.oracle.memo[k] = forced
+        v = interp.oracle.decide(k, self.key)
+        if self.key and self.key[0] == 'streq' and v and isinstance(self.key[2], str):
+            check_consistency(interp, self.key[1], self.key[2])
+            if self.key[2] == '' and isinstance(self.key[1], tuple) and len(self.key[1]) == 4 and self.key[1][:3] == ('m', 'strip', ()):
+                check_consistency(interp, None, None)
         return (not v) if self.negated else v
 
     def abs_compare(self, interp, op, other, reflected):
@@ -49,6 +58,114 @@ class Cond(AbstractValue):
         if other is True or other is False:
             return self.abs_truth(interp) is other
         return Unknown('is')
+
+
+# ---- consistency of decisions about one abstract string ---------------------------------------
+
+def eval_prov(p, known):
+    """Concrete value of a provenance term when its source string is known, else None."""
+    if p in known:
+        return known[p]
+    if not isinstance(p, tuple) or not p:
+        return None
+    try:
+        if p[0] == 'm' and len(p) == 4 and p[1] in ('strip', 'lstrip', 'rstrip') and p[2] == () \
+                and ('blank', p[3]) in known:
+            return ''      # a whitespace-only string stripped of whitespace
+        if p[0] == 'm' and len(p) == 4:
+            base = eval_prov(p[3], known)
+            if base is None:
+                return None
+            args = [a for a in p[2] if not (isinstance(a, tuple) and len(a) == 2 and isinstance(a[0], str) and a[0].isidentifier() and False)]
+            if p[1] in ('strip', 'lstrip', 'rstrip', 'lower', 'upper', 'casefold', 'replace', 'expandtabs') and \
+                    all(isinstance(a, (str, int)) for a in args):
+                return getattr(base, p[1])(*args)
+            return None
+        if p[0] == 'idx' and len(p) == 3:
+            base = eval_prov(p[2], known)
+            if base is None:
+                return None
+            i = p[1]
+            if isinstance(i, tuple) and i and i[0] == 'slice':
+                if all(x is None or isinstance(x, int) for x in i[1:]):
+                    return base[slice(*i[1:])]
+                return None
+            if isinstance(i, int):
+                return base[i] if -len(base) <= i < len(base) else None
+    except Exception:
+        return None
+    return None
+
+
+def eval_cond_key(key, known):
+    if not isinstance(key, tuple) or not key:
+        return None
+    try:
+        if key[0] == 'streq':
+            v = eval_prov(key[1], known)
+            if v is not None and isinstance(key[2], str):
+                return v == key[2]
+        elif key[0] == 'strtest':
+            v = eval_prov(key[3], known)
+            if v is not None and all(isinstance(a, (str, int, tuple)) for a in key[2]):
+                return bool(getattr(v, key[1])(*key[2]))
+        elif key[0] == 'contains':
+            v = eval_prov(key[2], known)
+            if v is not None and isinstance(key[1], str):
+                return key[1] in v
+            if ('blank', key[2]) in known and isinstance(key[1], str) and key[1].strip():
+                return False
+        elif key[0] == 'nonempty':
+            v = eval_prov(key[1], known)
+            if v is not None:
+                return bool(v)
+        elif key[0] == 'match' and len(key) == 4:
+            v = eval_prov(key[3], known)
+            if v is not None and key[1] in ('match', 'fullmatch', 'search'):
+                import re as _re
+                return getattr(_re.compile(key[2]), key[1])(v) is not None
+    except Exception:
+        return None
+    return None
+
+
+def known_strings(interp):
+    """Abstract strings that a decision on this path has pinned to a constant."""
+    out = {}
+    for k, v in interp.oracle.memo.items():
+        if v is True and isinstance(k, tuple) and len(k) == 2 and k[0] == 'cond' and isinstance(k[1], tuple) \
+                and k[1] and k[1][0] == 'streq' and isinstance(k[1][2], str) and isinstance(k[1][1], tuple) \
+                and k[1][1] and k[1][1][0] == 'src':
+            out[k[1][1]] = k[1][2]
+        # <src>.strip() == ''  decided true: the source string is whitespace-only
+        if v is True and isinstance(k, tuple) and len(k) == 2 and k[0] == 'cond' and isinstance(k[1], tuple) \
+                and k[1] and k[1][0] == 'streq' and k[1][2] == '' and isinstance(k[1][1], tuple) and len(k[1][1]) == 4 \
+                and k[1][1][0] == 'm' and k[1][1][1] == 'strip' and k[1][1][2] == ():
+            out[('blank', k[1][1][3])] = True
+    return out
+
+
+def implied_value(interp, key):
+    known = known_strings(interp)
+    if not known:
+        return None
+    return eval_cond_key(key, known)
+
+
+def check_consistency(interp, prov, value):
+    """A source string has just been decided equal to a constant: every earlier decision about it
+    must agree, otherwise the path is infeasible."""
+    from .interp import Infeasible
+    known = dict(known_strings(interp))
+    if prov is not None:
+        if not (isinstance(prov, tuple) and prov and prov[0] == 'src'):
+            return
+        known[prov] = value
+    for k, v in list(interp.oracle.memo.items()):
+        if isinstance(k, tuple) and len(k) == 2 and k[0] == 'cond' and isinstance(v, bool):
+            want = eval_cond_key(k[1], known)
+            if want is not None and want != v:
+                raise Infeasible()
 
 
 def prov_str(p):
@@ -288,7 +405,12 @@ class AbsMatch(AbstractValue):
         return 'AbsMatch(%s %r)' % (self.method, self.rx.pattern)
 
     def matched(self, interp):
-        return interp.oracle.decide(('cond', self.key), self.key)
+        k = ('cond', self.key)
+        if k not in interp.oracle.memo:
+            forced = implied_value(interp, self.key)
+            if forced is not None:
+                interp.oracle.memo[k] = forced
+        return interp.oracle.decide(k, self.key)
 
     def abs_truth(self, interp):
         return self.matched(interp)
